@@ -120,6 +120,7 @@ template<class T> constexpr bool c17_read_ok(bool aligned,int L,int N){
 			case K_ALIAS_SUB: if constexpr(N==L && arith){ v.NAME -= v; return 1; } else return -1; \
 			case K_ALIAS_MUL: if constexpr(N==L && arith){ v.NAME *= v; return 1; } else return -1; \
 			case K_ALIAS_DIV: if constexpr(N==L && arith){ v.NAME /= v; return 1; } else return -1; \
+			case K_SWZ_RHS: { V u; memset((void*)&u,0,sizeof u); u.NAME = r; v.NAME = u.NAME; return 1; } /* the same swizzle of another vector on the right */ \
 			default: return -1; } } }
 #endif
 #ifndef C17_SMASK
@@ -220,15 +221,15 @@ template<class T,class V> static void check_write_T(const In& in,vf::Ctx& c){
 	std::string pre=std::string(qname(Q))+":vec"+std::to_string(L)+":";
 	if(in.id>=C17_NNAMES){ c.fail("harness:bad-id","",""); return; }
 	const char* name=c17_names[in.id]; int idx[4]; int N=c17_decode(name,idx);
-	bool valid=N>0 && kind>=K_SET && kind<=K_ALIAS_DIV; for(int i=0;i<N;i++) if(idx[i]>=L) valid=false;
+	bool valid=N>0 && kind>=K_SET && kind<=K_SWZ_RHS; const bool alias= kind>=K_ALIAS_SET && kind<=K_ALIAS_DIV; for(int i=0;i<N;i++) if(idx[i]>=L) valid=false;
 	if(valid && !c17_norepeat(idx,N)) valid=false;
-	if(valid && kind>=K_ALIAS_SET && N!=L) valid=false;
+	if(valid && alias && N!=L) valid=false;
 	if(!valid){ c.fail("harness:case-not-valid",name,""); return; }
 	T src[4],rhs[4]; for(int i=0;i<L;i++) src[i]=mk<T>(in.tag[i]); for(int i=0;i<4;i++) rhs[i]=mk<T>(in.rhs[i]);
 	// expected, from the name: component idx[i] <- op(component idx[i], rhs[i]); everything else keeps its tag
 	T want[4]; for(int i=0;i<L;i++) want[i]=src[i];
 	if(kind==K_SCALAR){ for(int i=0;i<N;i++) want[idx[i]]=rhs[0]; }
-	else if(kind>=K_ALIAS_SET){ for(int i=0;i<N;i++) apply<T>(kind,want[idx[i]],src[i]); }
+	else if(alias){ for(int i=0;i<N;i++) apply<T>(kind,want[idx[i]],src[i]); }
 	else { for(int i=0;i<N;i++) apply<T>(kind,want[idx[i]],rhs[i]); }
 	Place<V> pl(false,src);
 	unsigned char before[256]; memcpy(before,pl.buf,sizeof before);
@@ -243,8 +244,8 @@ template<class T,class V> static void check_write_T(const In& in,vf::Ctx& c){
 	if(memcmp(got,want,L*sizeof(T))!=0){
 		bool named[4]={false,false,false,false}; for(int i=0;i<N;i++) named[idx[i]]=true;
 		bool other=false; for(int i=0;i<L;i++) if(!named[i] && memcmp(&got[i],&want[i],sizeof(T))!=0) other=true;
-		c.fail(pre+(kind>=K_ALIAS_SET? std::string("full-permutation:right-hand-side-is-the-vector-itself"):std::to_string(N)+"-letter:"+k)+(other?":component-not-named-was-changed":":named-component-holds-wrong-value"),
-			std::string(name)+" "+k+" "+(kind>=K_ALIAS_SET? std::string("itself"):showv(rhs,kind==K_SCALAR?1:N))+" on "+showv(src,L)+" -> "+showv(got,L),showv(want,L));
+		c.fail(pre+(alias? std::string("full-permutation:right-hand-side-is-the-vector-itself"):std::to_string(N)+"-letter:"+k)+(other?":component-not-named-was-changed":":named-component-holds-wrong-value"),
+			std::string(name)+" "+k+" "+(alias? std::string("itself"):showv(rhs,kind==K_SCALAR?1:N))+" on "+showv(src,L)+" -> "+showv(got,L),showv(want,L));
 	}
 	// bytes behind the object (behind the storage, i.e. sizeof(V)) must be untouched
 	if(memcmp(before+sizeof(V),pl.buf+sizeof(V),sizeof before-sizeof(V))!=0)
@@ -349,7 +350,7 @@ static void build_cases(std::vector<Case>& rd_cases,std::vector<Case>& wr_cases,
 				rd_cases.push_back(Case{id,mkcode(L,Q,K_READ,0)});
 				rd_cases.push_back(Case{id,mkcode(L,Q,K_READ,1)});
 				if(C17_FORM==2 && c17_norepeat(idx,N)){
-					for(int k=K_SET;k<=K_SCALAR;k++) wr_cases.push_back(Case{id,mkcode(L,Q,k,0)});
+					for(int k=K_SET;k<=K_SCALAR;k++) wr_cases.push_back(Case{id,mkcode(L,Q,k,0)}); wr_cases.push_back(Case{id,mkcode(L,Q,K_SWZ_RHS,0)});
 					if(N==L) for(int k=K_ALIAS_SET;k<=K_ALIAS_DIV;k++) al_cases.push_back(Case{id,mkcode(L,Q,k,0)});
 				}
 			}
